@@ -76,40 +76,42 @@ Definition pitems (s : scope) : result (list (ident * Q)) :=
   | _ => pasd s
   end.
 
-Fixpoint pcollect (g : ident -> result Q) (iv : list ident) (m : list (ident * expr)) (acc : list ident)
-  : result (list ident) :=
+Fixpoint pcollect (g : ident -> result Q) (iv : list (ident * expr)) (m : list (ident * expr))
+         (acc : list (ident * expr)) : result (list (ident * expr)) :=
   match m with
   | [] => Ok acc
   | (p, e) :: m' =>
-      if existsb (fun y => mem y iv) (vars e) then
-        match pfold g (filter (fun y => negb (mem y iv)) (vars e)) [] with
-        | Ok _ => pcollect g iv m' (if mem p acc then acc else acc ++ [p])
+      if existsb (fun y => is_some (lookup iv y)) (vars e) then
+        match pfold g (filter (fun y => negb (is_some (lookup iv y))) (vars e)) [] with
+        | Ok env => pcollect g iv m' (dict_set acc p (subst (vol_subst iv env) e))
         | Err er => Err er
         end
-      else pcollect g iv m' (removeN p acc)
+      else pcollect g iv m' (remove_key p acc)
   end.
 
-Fixpoint pvol (s : scope) : result (list ident) :=
+Fixpoint pvolx (s : scope) : result (list (ident * expr)) :=
   match s with
-  | SDict _ vl => Ok (nodupN vl)
+  | SDict _ vl => Ok (map (fun v => (v, EVar v)) (nodupN vl))
   | SMapped o m =>
-      match pvol o with
+      match pvolx o with
       | Err e => Err e
       | Ok [] => Ok []
-      | Ok iv => pcollect (pget (SMapped o m)) iv m iv
+      | Ok iv => pcollect (pget o) iv m iv
       end
-  | SRange i n _ => rmap (removeN n) (pvol i)
+  | SRange i n _ => rmap (remove_key n) (pvolx i)
   | SJoint l =>
-      (fix go (l : list (ident * scope)) (acc : list ident) : result (list ident) :=
+      (fix go (l : list (ident * scope)) (acc : list (ident * expr)) : result (list (ident * expr)) :=
          match l with
          | [] => Ok acc
          | (x, sub) :: l' =>
-             match pvol sub with
-             | Ok iv => go l' (if mem x iv then acc ++ [x] else acc)
+             match pvolx sub with
+             | Ok iv => go l' (match lookup iv x with Some e => dict_set acc x e | None => acc end)
              | Err e => Err e
              end
          end) l []
   end.
+
+Definition pvol (s : scope) : result (list ident) := rmap (map fst) (pvolx s).
 
 Definition pstep (s : scope) (o : op) : obs * scope :=
   match o with
@@ -124,6 +126,7 @@ Definition pstep (s : scope) (o : op) : obs * scope :=
   | OChange nc => let r := cc s cempty nc in
                   (BChange (ch_warned r) (scope_eqb (ch_scope r) (rebuild s nc)) true, ch_scope r)
   | OEq other => (BEq (scope_eqb s other) (scope_eqb s other), s)
+  | OVolX envs => (BVolX (rmap (eval_at envs) (pvolx s)), s)
   end.
 
 Fixpoint prun (s : scope) (ops : list op) : list obs :=
